@@ -60,6 +60,54 @@ def run(P: Program, rep: Report):
     from . import common as _cm
     _cm.keys_are_exact(P, rep, "C04.R5")
 
+    rep.rule("C04.R6", "text in front cannot shift what follows: no alternative of the mark regex other than the newline itself consumes a newline "
+                       "(a line break swallowed by a block start in the preceding text would make every later start line too small)")
+    from ..rx import find_mark_regex as _fmr
+    rx_ = _fmr(P)
+    for i_, al in enumerate(rx_.alts):
+        is_newline_alt = al.fixed_single_char() and al.items[0].cs.is_finite() and al.items[0].cs.chars == {"\n"}
+        if not is_newline_alt:
+            rep.check(not al.can_consume("\n"), "C04.R6", f"regex:alt{i_}:no-newline-inside", rx_.loc,
+                      f"the alternative {al!r} of the mark regex can consume a newline: blocks after such text report start lines that differ from the ones they have on their own")
+
+    rep.rule("C04.R7", "context table (concrete texts run by the interpreter, see C01.R11): for D1 + X + newline + D2 with X ranging over malformed texts (truncated blocks, unbalanced braces and quotes, repeated field keys under a key that D2 uses, short token sequences) the blocks parsed for D1 and for D2 - class, key, raw text, fields, values, lines shifted - are those parsed for D1 and D2 on their own")
+    from .. import doctable as _dt
+    _r = _dt.run_other(P, rep.tier, "context")
+    rep.count("documents_context", _r["documents"])
+    _loc = P.func("entrypoint", "parse_string").loc
+    _shown = 0
+    for _d, _msg in _r["bad"]:
+        if _shown >= 4:
+            break
+        _shown += 1
+        rep.fail("C04.R7", f"document:{_d[:40]!r}", _loc, f"for the text {_d!r}: {_msg}", {"input": _d})
+    if not _r["bad"]:
+        if _r["ok"] * 5 < _r["documents"] * 4:
+            _why = _r["undecided"][0] if _r["undecided"] else ("", "?")
+            raise AnalysisError(f"C04.R7: the interpreter could follow only {_r['ok']} of {_r['documents']} texts (e.g. {_why[0]!r}: {_why[1]})")
+        if _r["ok"] < _r["documents"]:
+            rep.not_decided.append(f"C04.R7 on {_r['documents'] - _r['ok']} of {_r['documents']} texts (constructs the interpreter does not model)")
+        rep.ok("C04.R7", f"documents:{_r['ok']}", _loc)
+
+    rep.rule("C04.R8", "resynchronisation does not depend on the nesting depth of the damaged text: no recursive call cycle is reachable from "
+                       "Splitter.split (a scanner that recurses per unclosed brace loses every block of the document to a RecursionError)")
+    from ..model import reachable as _reach, sccs as _sccs
+    _edges, _st = P.call_graph()
+    _roots = [P.func("splitter", "Splitter.split")]
+    _R = _reach(_edges, _roots)
+    _cyc = _sccs(_edges, _R)
+    rep.require_count("C04.R8", "functions reachable from Splitter.split", len(_R), 8)
+    for _comp in _cyc:
+        _names = sorted(f.qualname for f in _comp)
+        rep.fail("C04.R8", "cycle:" + "->".join(_names), _comp[0].loc, f"recursive call cycle reachable from Splitter.split: {' -> '.join(_names)}")
+    if not _cyc:
+        rep.ok("C04.R8", "splitter:acyclic", "bibtexparser/splitter.py", f"{len(_R)} functions")
+
+    rep.rule("C04.R10", "a failed block does not take its neighbours with it in a copying stack: the exceptions stored in failed blocks are copy-safe "
+                        "(same rule as C01.R6 - a parse stack built with allow_inplace_modification=False deep-copies every block)")
+    _common10 = __import__("bibcheck.props.common", fromlist=["x"])
+    _common10.exception_copy_safety(P, rep, "C04.R10")
+
     rep.rule("C04.R9", "no unsafe memoisation in the modules this property rests on: a function decorated with lru_cache / cache / "
                       "cached_property neither takes nor returns a mutable object (else later calls see stale or shared results)")
     from . import common as _common
